@@ -89,8 +89,11 @@ class UDPListener:
         if self.startup_broadcast and self.is_enabled:
             self.log.debug('Sending startup UDP broadcast.')
             for port in self.ports:
-                self.sock.sendto(self._getMessage(port),
-                                 ('255.255.255.255', UDP_PORT))
+                try:
+                    self.sock.sendto(self._getMessage(port),
+                                     ('255.255.255.255', UDP_PORT))
+                except OSError as e:  # e.g. network is unreachable
+                    self.log.debug('can not send startup UDP broadcast: %r', e)
         self.running = True
         while self.running and self.is_enabled:
             try:
@@ -106,7 +109,11 @@ class UDPListener:
             self.log.debug('Answering UDP broadcast from: %s',
                            format_address(addr))
             for port in self.ports:
-                self.sock.sendto(self._getMessage(port), addr)
+                try:
+                    self.sock.sendto(self._getMessage(port), addr)
+                except OSError as e:
+                    # e.g. a request from port 0: can not be answered
+                    self.log.debug('can not answer to %s: %r', format_address(addr), e)
 
     def shutdown(self):
         self.log.debug('shut down of discovery listener')
